@@ -53,9 +53,9 @@ def norm(g):
     return {f: {l: dict(v) for l, v in lins.items()} for f, lins in g.items()}
 
 
-def check_bank(mtjs):
+def check_bank(mtjs, order=None):
     mts = [model.MT.from_json(j) for j in mtjs]
-    case = {'bank': mtjs}
+    case = {'bank': mtjs, 'order': order}
     out = []
 
     def bad(kind, detail):
@@ -65,7 +65,7 @@ def check_bank(mtjs):
     g, lex = {}, {}
     try:
         for mt in mts:
-            ret = grammar.extract(build(mt), g, lex)
+            ret = grammar.extract(build(mt, child_order=order), g, lex)
             if ret is not g:
                 bad('return', 'extract does not return the grammar dict it was given')
     except Exception as e:
@@ -106,7 +106,7 @@ def check_bank(mtjs):
 
 def check_case(case):
     with quiet():
-        return check_bank(case['bank'])[0]
+        return check_bank(case['bank'], case.get('order'))[0]
 
 
 def run_chunk(chunk):
@@ -122,8 +122,9 @@ def run_chunk(chunk):
         if chunk['kind'] == 'single':
             for sh, k in sweep.iter_shapes(chunk):
                 for mt in label_variants(sh, chunk['dev']):
-                    vs, nt = check_bank([mt.to_json()])
-                    take(vs, nt, mt.key())
+                    for order in (None, 'rev'):
+                        vs, nt = check_bank([mt.to_json()], order)
+                        take(vs, nt, (mt.key(), order))
                 res.sample({'treebank': [model.mt_str(mt.root, mt.toks)]})
         else:
             pool = []
